@@ -6,6 +6,7 @@
   The whole-rule theorems of the indent family are in C03 / C07 / C10 / C18 (sections `wp2_bfull2`).
 -/
 import VsgProofs.Lemmas.BFull2VSpace
+import VsgProofs.Lemmas.BFull2Affix   -- wp2b_affix
 namespace Vsgm.BFULL2
 open Vsgm Vsgm.TM Vsgm.BFull2.VSpace Vsgm.Base.BlankLine
 
@@ -120,5 +121,71 @@ example :
   decide +kernel
 
 /-! ### END wp2_bfull2 -/
+
+/-! ### BEGIN wp2b_affix -/
+
+/-! #### token_prefix / token_suffix — what the whole rule reports (spec form) -/
+
+section affix
+open BFull2 BFull2.Affix
+
+/-- **report = exactly the tokens of the listed classes whose lower-cased value has none of the lower-cased
+    prefixes / suffixes (and is no exception)**, in file order, each as a one-token region with its own position and
+    line — plain extractor, every token list with a line break, every option list, every `lower` and exception oracle,
+    `lTokens` admitted by `CsOk` -/
+theorem affix_analyze_spec (V : View Tok) (lower : Str → Str) (exc : Str → Bool) (P : Affix.Params) (A : List Str)
+    (f : List Tok) (hv : P.variant = .plain) (ha : P.affixes = some A) (hcs : CsOk P.cs) (hcr : HasCr V.uid f) :
+    (Affix.sem V lower exc P).analyze f = (List.range f.length).filterMap (reportAt V lower exc P A f) :=
+  analyze_spec V lower exc P A f hv ha hcs hcr
+
+/-- guard `HasCr` is needed: on a token list without any line break the extractor raises KeyError
+    (`dMap["parser"]["carriage_return"]`) as soon as there is a candidate; the rule then reports nothing -/
+theorem affix_noCr_witness :
+    let V : View Tok := { uid := fun t => if t.cls = 3 then some ("signal_declaration", "identifier") else none, inst := fun _ _ => false,
+                          isCr := fun _ => false, isBof := fun _ => false, len := fun _ => 0, bof := default }
+    let P : Affix.Params := { kind := .pre, cs := [{ uid := some ("signal_declaration", "identifier"), idx := 3 }], affixes := some [] }
+    analyzeE V id (fun _ => false) P [⟨3, .code, "x".toList⟩] = .error .keyError := by
+  decide +kernel
+
+/-- an EMPTY option list: every candidate that is no exception is reported -/
+theorem affix_empty_list (lower : Str → Str) (k : Affix.Kind) (s : Str) : hasAffix lower k ([].map lower) s = false :=
+  hasAffix_nil lower k s
+
+/-- an EMPTY STRING among the options: nothing is reported (needs `lower "" = ""`) -/
+theorem affix_empty_string (lower : Str → Str) (hl : lower [] = []) (k : Affix.Kind) (A : List Str) (h : [] ∈ A) (s : Str) :
+    hasAffix lower k (A.map lower) s = true :=
+  hasAffix_empty lower hl k A h s
+
+/-- options are compared case-insensitively: option lists with the same lower-cased forms report the same tokens -/
+theorem affix_case_insensitive (V : View Tok) (lower : Str → Str) (exc : Str → Bool) (P : Affix.Params) (A B : List Str)
+    (h : A.map lower = B.map lower) (f : List Tok) (i : Nat) :
+    reportAt V lower exc P A f i = reportAt V lower exc P B f i :=
+  reportAt_lower_congr V lower exc P A B h f i
+
+/-- the prefix test lower-cases the option twice; with an idempotent `lower` it is the plain prefix test -/
+theorem affix_prefix_idem (lower : Str → Str) (hi : ∀ s, lower (lower s) = lower s) (A : List Str) (s : Str) :
+    hasAffix lower .pre (A.map lower) s = A.any fun p => (lower p).isPrefixOf s :=
+  hasAffix_pre_idem lower hi A s
+
+/-- options left at `None`: TypeError whenever the extractor returns -/
+theorem affix_none_raises (V : View Tok) (lower : Str → Str) (exc : Str → Bool) (P : Affix.Params) (f : List Tok)
+    (ts : List (Toi Tok)) (ha : P.affixes = none) (ht : Affix.toisWith V P f (processTokens V.uid f) = .ok ts) :
+    analyzeE V lower exc P f = .error .typeError :=
+  analyze_none V lower exc P f ts ha ht
+
+/-- non-vacuity: prefixes `[S_]` (upper case in the configuration): `X_a` is reported, `s_b` is not -/
+example :
+    let V : View Tok := { uid := fun t => if t.cls = 3 then some ("signal_declaration", "identifier") else if t.cls = 1 then some crKey else none,
+                          inst := fun _ _ => false, isCr := fun _ => false, isBof := fun _ => false, len := fun _ => 0, bof := default }
+    let P : Affix.Params := { kind := .pre, cs := [{ uid := some ("signal_declaration", "identifier"), idx := 3 }], affixes := some ["S_".toList] }
+    let lo : Str → Str := fun s => s.map fun c => if c = 'S' then 's' else if c = 'X' then 'x' else c
+    ((Affix.sem V lo (fun _ => false) P).analyze [⟨3, .code, "X_a".toList⟩, ⟨1, .cr, []⟩]).map (·.start) = [0] ∧
+    (Affix.sem V lo (fun _ => false) P).analyze [⟨3, .code, "s_b".toList⟩, ⟨1, .cr, []⟩] = [] := by
+  decide +kernel
+
+end affix
+
+/-! ### END wp2b_affix -/
+
 
 end Vsgm.BFULL2
